@@ -153,4 +153,61 @@ theorem drift_deleteKey (s : State) (i : Nat) (k : Bytes) (hdb : s.hasDb i = tru
 
 theorem memFn_empty : memFn { dbs := [], mem := 0 } = 0 := rfl
 
+theorem hasDb_createDb (s : State) (i : Nat) : (s.createDb i).hasDb i = true := by
+  unfold State.createDb
+  split
+  · assumption
+  · simp [State.hasDb]
+
+/-- one admitted `setValues` of a single key moves the drift by the accounted size of the entry it overwrites -/
+theorem drift_setValues_single (c : Ctx) (s : State) (k : Bytes) (v : Val) (hok : (setValues c s [(k, v)]).2 = true) :
+    drift (setValues c s [(k, v)]).1 = drift s + oldSize (s.db c.db).store k := by
+  unfold setValues at hok ⊢
+  split at hok
+  · simp at hok
+  · rename_i hc
+    simp only [hc, Bool.false_eq_true, if_false]
+    have hd : dedupLast [(k, v)] = [(k, v)] := by simp [dedupLast, KMap.put]
+    rw [hd]
+    simp only [List.foldl]
+    rw [drift_setOne c.db (s.createDb c.db) (k, v) (hasDb_createDb s c.db), createDb_db]
+    unfold drift
+    rw [memFn_createDb]
+    have : (s.createDb c.db).mem = s.mem := by unfold State.createDb; split <;> rfl
+    rw [this]
+
+/-- what FLUSHDB deducts is the accounted size of the database's store -/
+theorem Db.cost_eq (d : Db) : d.cost = storeSize d.store := rfl
+
+/-- **FLUSHDB keeps the drift**: the counter loses exactly what the dataset loses -/
+theorem drift_flushDb (s s' : State) (i : Nat) (h : flushDb s i = some s') : drift s' = drift s := by
+  unfold flushDb at h
+  split at h
+  · injection h with h; rw [← h]
+  · rename_i hdb
+    have hdb' : s.hasDb i = true := by simpa using hdb
+    injection h with h; rw [← h]
+    unfold drift memFn
+    simp only
+    rw [dbsSum_put]
+    simp only [oldDbSize, dbs_get_of_hasDb s i hdb', Option.map_some, Option.getD_some, Db.cost_eq]
+    simp only [storeSize, List.map_nil, List.sum_nil]
+    omega
+
+theorem memFn_flushAll (s : State) : memFn (flushAll s) = 0 := by
+  unfold memFn flushAll
+  simp only
+  generalize s.dbs = l
+  induction l with
+  | nil => rfl
+  | cons p r ih =>
+    simp only [List.map_cons, List.sum_cons, ih]
+    simp [storeSize]
+
+/-- **FLUSHALL makes the figure exact**: counter and dataset size are both zero, whatever the drift was before -/
+theorem drift_flushAll (s : State) : drift (flushAll s) = 0 := by
+  unfold drift
+  rw [memFn_flushAll]
+  simp [flushAll]
+
 end Sugar
